@@ -244,6 +244,19 @@ Definition c08_timelimit (L tnew slack : dy) (recs : list (N * dy * dy)) : N :=
   ((if existsb (tl_early L tnew) recs then 1 else 0) +
    (if existsb (tl_over tnew slack) recs then 3 else 0))%N.
 
+(** ** start of a solve and its trajectory (iterate state is observed through the trace hook).
+    [c08_start]: the first iterate handed to the termination test has tau = kappa = 1
+    (Update/Start.v: default_start sets both, in the symmetric and the non-symmetric branch).
+    [c08_traj]: the re-used solver's whole trajectory of raw iterates is bit-identical to that
+    of a twin built from the same constructor data with the same update operations applied
+    and no earlier solve (so they hold bit-identical data and scalings), and the iteration
+    counts agree.  [c08_iters]: against a fresh solver with its own equilibration the
+    iteration count may differ, but not by more than a generous factor. *)
+Definition c08_start (tau kappa : dy) : N := if deqb tau d1 && deqb kappa d1 then 0%N else 1%N.
+Definition c08_traj (same : bool) (it_u it_t : N) : N := if same && N.eqb it_u it_t then 0%N else 1%N.
+Definition c08_iters (it_u it_f : N) : N := if N.leb it_u (2 * it_f + 5) then 0%N else 1%N.
+Definition c08_class_is (cls expected : N) : N := if N.eqb cls expected then 0%N else 1%N.
+
 Definition ofb (b : bool) : N := if b then 0%N else 1%N.
 Definition maxl (l : list N) : N := fold_left N.max l 0%N.
 
